@@ -7,7 +7,7 @@ BOUNDS = {
 }
 ASSUMPTIONS = [
     "strconv.ParseFloat on symbolic digits is an uninterpreted function of its argument (functional consistency only; ErrRange only possible for literals with an exponent and >= 5 bytes); correct rounding is strconv's and outside the claim",
-    "Outside: the generic map[string]any / []any / named-interface arshalers and UnmarshalRead routes (reflection-driven)",
+    "the generic interface/map/slice arshaler routes run through the engine's reflect environment model (engine/reflect.go)",
 ]
 
 
@@ -30,4 +30,8 @@ def obligations(tier):
     for n in ([2, 3, 4, 8] if q else [2, 3, 4, 5, 8, 9, 16]):
         for same in B:
             L.append(ob("intern/n=%d/samelen=%d" % (n, same), ".", "VerifC03Intern", [n, same], covers=["end"], timeout_ms=60000))
+    RT = ['{"?":?}', '[?,{"?":"?"}]', ' {"a":[?,null],"?":{}} ', '{"?":1,"?":2}'] if q else ['{"?":?}', '[?,{"?":"?"}]', ' {"a":[?,null],"?":{}} ', '{"?":1,"?":2}', '[[?],?]', '{"a":{"?":[?]}}', '??', '[1e?,"\\u00??"]']
+    for i, t in enumerate(RT):
+        for target in range(5):
+            L.append(ob("route/t%d/target=%d" % (i, target), ".", "VerifC03Route", [t, target], covers=["accept"], max_seconds=600))
     return L
